@@ -91,6 +91,28 @@ package websocket
 //@ monghost unlock { self.gRCache = self.bytesCached; self.gRMsg = self.message; self.gRType = self.msgType; self.gRExp = self.expectingFragments; self.gRComp = self.compress }
 //@ moninv reader: !self.closed ==> self.bytesCached == self.gRCache && self.message == self.gRMsg && self.msgType == self.gRType && self.expectingFragments == self.gRExp && self.compress == self.gRComp
 //@ moninv own: !self.closed ==> WsOwn(self)                                                   // prop C11
+
+// ---- the send queue (blocking-mode connections): a second monitor on the same mutex (C14, C11).
+// protected:    gQActive  a drainer goroutine exists      gQNext  index of the entry the drainer has taken last
+// thread-local: gQTok     this thread is the drainer      gQI     the drainer's own index
+//               gQSnap / gQASnap  what this thread saw at its last Lock (rely: only the drainer moves gQNext)
+//@ ghost Conn.gQActive : Bool
+//@ ghost Conn.gQNext : Int
+// gQIn[h]: the buffer handle h is waiting in the send queue
+//@ ghost Conn.gQIn : (Array Int Bool)
+//@ ghost local Conn.gQTok : Bool
+//@ ghost local Conn.gQI : Int
+//@ ghost local Conn.gQSnap : Int
+//@ ghost local Conn.gQASnap : Bool
+//@ pred QTaken(c *Conn) := forall p int {mem(c.sendQueue, p)} :: off(c.sendQueue) <= p && p <= off(c.sendQueue) + c.gQNext && p < off(c.sendQueue) + len(c.sendQueue) ==> mem(c.sendQueue, p) == nil
+//@ pred QPending(c *Conn) := forall p int {mem(c.sendQueue, p)} :: off(c.sendQueue) + c.gQNext < p && p < off(c.sendQueue) + len(c.sendQueue) ==> mem(c.sendQueue, p) != nil && mem(c.sendQueue, p) <= top && liveP[mem(c.sendQueue, p)] && c.gQIn[mem(c.sendQueue, p)] && mem(c.sendQueue, p) != c.bytesCached && mem(c.sendQueue, p) != c.message
+//@ pred QDistinct(c *Conn) := forall p int, q int {mem(c.sendQueue, p), mem(c.sendQueue, q)} :: off(c.sendQueue) + c.gQNext < p && p < q && q < off(c.sendQueue) + len(c.sendQueue) ==> mem(c.sendQueue, p) != mem(c.sendQueue, q)
+//@ pred SendQ(c *Conn) := c.gQNext >= 0 && (c.sendQueue != nil ==> (c.gQActive == (len(c.sendQueue) > 0)) && (c.gQActive ==> 0 <= c.gQNext && c.gQNext < len(c.sendQueue)) && QTaken(c) && QPending(c) && QDistinct(c)) && (forall h int {c.gQIn[h]} :: c.gQIn[h] ==> h != nil && h <= top && liveP[h] && h != c.bytesCached && h != c.message)
+//@ protected Conn by mux: sendQueue, elems(sendQueue), gQActive, gQNext, gQIn
+//@ monghost lock { self.gQSnap = self.gQNext; self.gQASnap = self.gQActive }
+//@ moninv sendq: !self.closed ==> SendQ(self)                                                  // prop C14 C11
+//@ moninv drainer: self.gQTok && !self.closed ==> self.gQActive && self.gQNext == self.gQI && self.sendQueue != nil     // prop C14
+//@ moninv rely: !self.gQTok && self.gQASnap && !self.closed ==> self.gQActive && self.gQNext == self.gQSnap   // prop C14
 //@ pred WsOwn(c *Conn) := (c.bytesCached != nil ==> liveP[c.bytesCached] && c.bytesCached <= top) && (c.message != nil ==> liveP[c.message] && c.message <= top && c.message != c.bytesCached)
 //@ pred WsWired(c *Conn) := c.commonFields != nil && c.Engine != nil && c.Engine.BodyAllocator != nil
 
@@ -220,7 +242,7 @@ package websocket
 //@ iface io.WriteCloser.Write
 //@   note a flate writer feeding a writeBuffer: allocates and grows buffers of its own only
 //@   ensures forall q int :: old(liveP[q]) ==> liveP[q]
-//@   ensures forall wb *writeBuffer :: wb.pbuf == old(wb.pbuf) || (fresh(wb.pbuf) && liveP[wb.pbuf])
+//@   ensures forall wb *writeBuffer :: wb.pbuf == old(wb.pbuf) || (fresh(wb.pbuf) && liveP[wb.pbuf] && wb.pbuf <= top)
 //@   assigns liveP, writeBuffer.pbuf, allboxes("[]byte"), allelems("byte"), allocates
 //@ func (*writeBuffer).Close
 //@   trusted
@@ -235,6 +257,7 @@ package websocket
 //@   requires WsWired(c) && !holds(c.mux) && c.Engine.MaxWebsocketFramePayloadSize > 0 && c.Conn != nil
 //@   note the message type is one of the six opcodes of RFC 6455 (or 0 for WriteFrame continuation): a caller's own invalid opcode is outside the property
 //@   requires optype: 0 <= messageType && messageType <= 15
+//@   requires notdrainer: !c.gQTok
 //@   ensures ctlbig: isCtl(messageType) && len(data) > 125 ==> result != nil && c.gFrames == 0       // prop C15 C13
 //@   ensures unlocked: !holds(c.mux)                                                                  // prop C14
 //@   assigns everything
@@ -259,20 +282,48 @@ package websocket
 //@     invariant isCtl(messageType) ==> len(data) <= 125
 //@     invariant c.gFrames >= 0 && (c.gFrames > 0 ==> base(data) == c.gBase && off(data) == c.gEnd && c.gEnd + len(data) == c.gOff0 + c.gTotal) && (sendOpcode == (c.gFrames == 0)) && (sendCompress ==> c.gFrames == 0)
 //@     invariant !c.closed ==> WsOwn(c)
+//@     invariant !c.closed && SendQ(c) && !c.gQTok && (c.gQASnap ==> c.gQActive && c.gQNext == c.gQSnap) && (c.gWP != 0 ==> !c.gQIn[c.gWP] && c.gWP <= top)
 //@     invariant (forall wb *writeBuffer :: wb == c.gW && wb != nil ==> wb.pbuf == c.gWP) && (c.gWP != 0 ==> liveP[c.gWP] && c.gWP != c.bytesCached && c.gWP != c.message)
 // ---- one frame on the wire (RFC 6455 5.2), as writeFrame builds it. The same header predicates are what nextFrame decodes
 // (nextFrame/post#fields, #okbody), so decode(encode(frame)) == frame is the composition of the two contracts (C12).
 //@ pred hdrLen(n int, client bool) := ite(n < 126, 2, ite(n <= 65535, 4, 10)) + ite(client, 4, 0)
 //@ pred FrameHdr(b []byte, fin bool, rsv1 bool, op int, client bool, n int) := len(b) == hdrLen(n, client) + n && b[0] == ite(fin, 128, 0) + ite(rsv1, 64, 0) + op && b[1] == ite(client, 128, 0) + ite(n < 126, n, ite(n <= 65535, 126, 127)) && (n >= 126 && n <= 65535 ==> b[2]*256 + b[3] == n) && (n > 65535 ==> (((((((b[2]*256 + b[3])*256 + b[4])*256 + b[5])*256 + b[6])*256 + b[7])*256 + b[8])*256 + b[9]) == n)
-//@ func (*Conn).writeFrame$1
+//@ func (*Conn).CloseWithError
 //@   trusted
-//@   note the send-queue drainer (C14's subject) is not verified here
-//@   assigns everything
+//@   havoc
+//@   note closes the connection (CloseAndClean through the engine's close path); not under contract here
+//@   requires !holds(c.mux)
+//@   ensures !holds(c.mux) && c == old(c)
+// the send-queue drainer: writes each taken frame once, gives its buffer back once, takes the entries in queue order, retires
+// exactly when it has taken everything queued so far (or the connection is closed)
+//@ func (*Conn).writeFrame$1
+//@   props C14 C11
+//@   safety index slice nil div assert panic make lock lockset
+//@   requires c != nil && WsWired(c) && c.Conn != nil && pbuf != nil && liveP[pbuf]
+//@   requires thread: c.gQTok && c.gQI == 0 && !holds(c.mux)
+//@   note a drainer is started only on a queue that holds exactly the frame it is given (so never while another drainer exists)
+//@   requires handover: len(c.sendQueue) == 1 && c.gQNext == 0 && c.sendQueue[0] == nil
+//@   ensures retired: !holds(c.mux)                                                                  // prop C14
+//@   assigns everything, Conn.gQTok, Conn.gQI
+//@   at unlock#2 ghost { c.gQActive = false; c.gQTok = false; c.gQASnap = false }
+//@   at unlock#3 assert order: i == c.gQNext + 1 && pbuf != nil && liveP[pbuf]   // prop C14
+//@   at unlock#3 ghost { c.gQNext = i; c.gQI = i; c.gQIn[pbuf] = false }
+//@   loop 1
+//@     invariant c.gQTok && i == c.gQI && i >= 0 && !holds(c.mux) && pbuf != nil && liveP[pbuf] && WsWired(c) && c.Conn != nil
 //@ func (*Conn).writeFrame
-//@   props C12 C11
+//@   props C12 C11 C14
 //@   safety index slice nil div assert panic make
 //@   requires holds(c.mux) && WsWired(c) && c.Conn != nil && 0 <= messageType && messageType <= 15
+//@   requires queue: !c.closed && SendQ(c) && !c.gQTok && WsOwn(c)
 //@   ensures SendKeeps(c)
+//@   note queued mode (C14): the frame goes to the tail of the queue; a drainer is started only by the writer that finds the queue empty; a writer never moves the drainer's index
+//@   ensures queue: SendQ(c) && !c.gQTok && (old(c.gQActive) ==> c.gQActive && c.gQNext == old(c.gQNext))   // prop C14
+//@   ensures tail: old(c.sendQueue) != nil && result == nil ==> len(c.sendQueue) == old(len(c.sendQueue)) + 1 && c.gQActive   // prop C14
+//@   ensures full: old(c.sendQueue) != nil && result != nil ==> len(c.sendQueue) == old(len(c.sendQueue)) && c.gQActive == old(c.gQActive)   // prop C14
+//@   at before:go#1 ghost { c.gQActive = true; c.gQNext = 0; c.gQTok = true; c.gQI = 0 }
+//@   at go#1 ghost { c.gQTok = false }
+//@   at return ghost { c.gQIn[pbuf] = (old(c.sendQueue) != nil && result == nil && len(c.sendQueue) > 1) }
+//@   ensures onlynew: forall h int {c.gQIn[h]} :: h <= old(top) ==> c.gQIn[h] == old(c.gQIn[h])   // prop C11
 //@   note the buffer that goes to the connection or into the send queue is one well-formed frame carrying exactly data
 //@   at return assert hlen: result == nil ==> len(*pbuf) == hdrLen(len(data), c.isClient) + len(data)   // prop C12
 //@   at return assert b0: result == nil ==> (*pbuf)[0] == ite(fin, 128, 0) + ite(compress, 64, 0) + ite(sendOpcode, messageType, 0)   // prop C12
@@ -290,5 +341,33 @@ package websocket
 //@ iface io.WriteCloser.Close
 //@   note closing a flate writer flushes into its writeBuffer
 //@   ensures forall q int :: old(liveP[q]) ==> liveP[q]
-//@   ensures forall wb *writeBuffer :: wb.pbuf == old(wb.pbuf) || (fresh(wb.pbuf) && liveP[wb.pbuf])
+//@   ensures forall wb *writeBuffer :: wb.pbuf == old(wb.pbuf) || (fresh(wb.pbuf) && liveP[wb.pbuf] && wb.pbuf <= top)
 //@   assigns liveP, writeBuffer.pbuf, allboxes("[]byte"), allelems("byte"), allocates
+
+// ---- CloseAndClean: closes once; every buffer still waiting in the send queue, the input cache and the message under
+// assembly are given back exactly once; the frame a drainer has taken is the drainer's to give back (C11, C14)
+//@ fieldfunc nbhttp/websocket.Conn.onClose
+//@   havoc
+//@   note the close callback (user code): runs after the mutex is released; nothing reopens a closed connection
+//@   ensures !holds(c.mux) && (old(c.closed) ==> c.closed)
+//@ func (*Conn).CloseAndClean
+//@   props C14 C11
+//@   safety index slice nil div assert panic make lock
+//@   note the close error is read for the callback after the mutex is released (no writer remains once closed is set); lockset is not claimed here
+//@   requires c != nil && WsWired(c) && !holds(c.mux)
+//@   ensures closed: c.closed && !holds(c.mux)                                                        // prop C14
+//@   assigns everything
+//@   loop 1
+//@     invariant rangeindex >= -1 && holds(c.mux) && WsWired(c) && c.closed && !c.gClosed0 && WsOwn(c) && c.gQNext == c.gQSnap && c.gQNext >= 0
+//@     invariant forall p int, q int {mem(c.sendQueue, p), mem(c.sendQueue, q)} :: off(c.sendQueue) + c.gQNext < p && off(c.sendQueue) + rangeindex < p && p < q && q < off(c.sendQueue) + len(c.sendQueue) ==> mem(c.sendQueue, p) != mem(c.sendQueue, q)
+//@     invariant forall p int {mem(c.sendQueue, p)} :: off(c.sendQueue) <= p && p <= off(c.sendQueue) + c.gQNext && p < off(c.sendQueue) + len(c.sendQueue) && c.gQASnap ==> mem(c.sendQueue, p) == nil
+//@     invariant forall p int {mem(c.sendQueue, p)} :: off(c.sendQueue) + rangeindex < p && off(c.sendQueue) + c.gQNext < p && p < off(c.sendQueue) + len(c.sendQueue) ==> mem(c.sendQueue, p) != nil && liveP[mem(c.sendQueue, p)] && mem(c.sendQueue, p) != c.bytesCached && mem(c.sendQueue, p) != c.message
+//@   at lock#1 ghost { c.gClosed0 = c.closed }
+
+//@ func (*Conn).WriteFrame
+//@   props C14 C12
+//@   safety index slice nil div assert panic make lock
+//@   requires WsWired(c) && !holds(c.mux) && c.Conn != nil && 0 <= messageType && messageType <= 15 && !c.gQTok
+//@   ensures unlocked: !holds(c.mux)                                                                  // prop C14
+//@   at before:writeFrame#1 assert locked: holds(c.mux) && !c.closed                                  // prop C14
+//@   assigns everything
